@@ -169,6 +169,32 @@ def plan_helper(fn, cls):
     return h
 
 
+def _dead_after(fn, st, name):
+    """The caller's variable `name` is not read after statement st before it is bound again: st is followed, in its own block and in the
+    blocks around it up to the nearest loop that rebinds `name` (or the function), by no load of `name`."""
+    parents = {}
+    for n in ast.walk(fn):
+        for c in ast.iter_child_nodes(n):
+            parents[c] = n
+    cur = st
+    while cur is not None and cur is not fn:
+        par = parents.get(cur)
+        if par is None:
+            return False
+        for fld in ("body", "orelse", "finalbody"):
+            block = getattr(par, fld, None)
+            if isinstance(block, list) and cur in block:
+                for later in block[block.index(cur) + 1:]:
+                    if any(isinstance(n, ast.Name) and n.id == name and isinstance(n.ctx, ast.Load) for n in ast.walk(later)):
+                        return False
+        if isinstance(par, ast.For) and any(isinstance(n, ast.Name) and n.id == name for n in ast.walk(par.target)):
+            return True     # every iteration starts by binding the name again
+        if isinstance(par, (ast.While, ast.For)):
+            return False    # a loop that does not rebind it: the next iteration may read it
+        cur = par
+    return True
+
+
 class _Subst(ast.NodeTransformer):
     def __init__(self, mapping):
         self.mapping = mapping      # name -> expr node (Load) or str (rename)
@@ -389,6 +415,8 @@ class Inliner:
                 mapping[p] = x
             elif isinstance(x, ast.Name) and x.id == p and (call is st.value and (isinstance(st, ast.Return) or (p in target_names and returns_name == p))):
                 pass        # `p = helper(.., p, ..)` with a helper that updates and returns its parameter p: the caller's p is that variable
+            elif isinstance(x, ast.Name) and p in stored and _dead_after(fn, st, x.id):
+                mapping[p] = x.id       # the helper rebinds its parameter, and the caller never reads its own variable again: one variable
             else:
                 new = p if p not in used else f"{p}__{h.fn.name.strip('_')}"
                 mapping[p] = new
@@ -463,6 +491,11 @@ def library_spellings(tree, stats):
                 bump("all(not ..)")
                 inner = loc(ast.GeneratorExp(elt=c.args[0].elt.operand, generators=c.args[0].generators), c.args[0])
                 return loc(ast.UnaryOp(op=ast.Not(), operand=ast.Call(func=ast.Name(id="any", ctx=ast.Load()), args=[inner], keywords=[])), c)
+            if isinstance(f, ast.Lambda) and not c.keywords and not f.args.defaults and not f.args.kwonlyargs and not f.args.vararg and not f.args.kwarg \
+                    and len(f.args.args) + len(f.args.posonlyargs) == len(c.args) and all(_simple_arg(a) for a in c.args):
+                bump("(lambda ..)(..)")
+                params = [a.arg for a in f.args.posonlyargs + f.args.args]
+                return loc(_Subst(dict(zip(params, c.args))).visit(copy.deepcopy(f.body)), c)
             if isinstance(f, ast.Name) and f.id == "dict" and not c.args and all(k.arg for k in c.keywords):
                 bump("dict(k=v)")
                 return loc(ast.Dict(keys=[ast.Constant(value=k.arg) for k in c.keywords], values=[k.value for k in c.keywords]), c)
@@ -772,6 +805,8 @@ def _immutable_constant(v):
     """A value expression that is a constant of an immutable type (so naming it changes nothing but the text)."""
     if isinstance(v, ast.Constant):
         return True
+    if isinstance(v, ast.Lambda):
+        return not v.args.defaults and not v.args.kw_defaults       # a function written on the spot: as immutable as a constant
     if isinstance(v, ast.Tuple):
         return all(_immutable_constant(e) or (_simple_arg(e) and not isinstance(e, ast.Constant)) for e in v.elts)      # a table may name existing objects
     if isinstance(v, ast.UnaryOp):
@@ -1143,6 +1178,20 @@ def canon_block(block, fn, counts):
             counts["for-else search->any"] = counts.get("for-else search->any", 0) + 1
             continue
         # for x in (a, b): BODY   ->   BODY[x:=a] ; BODY[x:=b]      (a short literal sequence, no break/continue, x not rebound)
+        if isinstance(st, ast.For) and not st.orelse and isinstance(st.iter, (ast.Tuple, ast.List)) and 1 <= len(st.iter.elts) <= 4 and isinstance(st.target, ast.Tuple) \
+                and all(isinstance(t_, ast.Name) for t_ in st.target.elts) \
+                and all(isinstance(e, ast.Tuple) and len(e.elts) == len(st.target.elts) and all(_simple_arg(x) or isinstance(x, ast.Lambda) for x in e.elts) for e in st.iter.elts) \
+                and not any(isinstance(n, (ast.Break, ast.Continue)) for n in ast.walk(st)) \
+                and not any(isinstance(n, ast.Name) and n.id in {t_.id for t_ in st.target.elts} and isinstance(n.ctx, (ast.Store, ast.Del)) for b_ in st.body for n in ast.walk(b_)):
+            # for a, b in ((x1, y1), (x2, y2)): BODY   ->   BODY[a:=x1, b:=y1] ; BODY[a:=x2, b:=y2]     (a literal table of rows)
+            out = []
+            for e in st.iter.elts:
+                m_ = {t_.id: x for t_, x in zip(st.target.elts, e.elts)}
+                for b_ in st.body:
+                    out.append(loc(_Subst(m_).visit(copy.deepcopy(b_)), b_))
+            block[i:i + 1] = out
+            counts["literal-table-loop-unrolled"] = counts.get("literal-table-loop-unrolled", 0) + 1
+            continue
         if isinstance(st, ast.For) and not st.orelse and isinstance(st.iter, (ast.Tuple, ast.List)) and 1 <= len(st.iter.elts) <= 4 and isinstance(st.target, ast.Name) \
                 and not any(isinstance(e, ast.Starred) for e in st.iter.elts) and all(_simple_arg(e) for e in st.iter.elts) \
                 and not any(isinstance(n, (ast.Break, ast.Continue)) for n in ast.walk(st)) \
@@ -1154,6 +1203,52 @@ def canon_block(block, fn, counts):
             block[i:i + 1] = out
             counts["literal-loop-unrolled"] = counts.get("literal-loop-unrolled", 0) + 1
             continue
+        # if C: X = A else: X = B ; if TEST(X): S      ->   if C: (if TEST(A): S) else: (if TEST(B): S)     (X used only in that test)
+        if isinstance(st, ast.If) and len(st.body) == 1 and len(st.orelse) == 1 and isinstance(nxt, ast.If) and not nxt.orelse and len(nxt.body) <= 3:
+            a_, b_ = st.body[0], st.orelse[0]
+            if isinstance(a_, ast.Assign) and isinstance(b_, ast.Assign) and len(a_.targets) == 1 and len(b_.targets) == 1 and isinstance(a_.targets[0], ast.Name) \
+                    and isinstance(b_.targets[0], ast.Name) and a_.targets[0].id == b_.targets[0].id:
+                X = a_.targets[0].id
+                in_test = [n for n in ast.walk(nxt.test) if isinstance(n, ast.Name) and n.id == X]
+                total = [n for n in ast.walk(fn) if isinstance(n, ast.Name) and n.id == X]
+                if len(in_test) == 1 and len(total) == 3:
+                    def with_value(v):
+                        t2 = copy.deepcopy(nxt.test)
+                        if isinstance(t2, ast.Name) and t2.id == X:
+                            return copy.deepcopy(v)
+                        for n in ast.walk(t2):
+                            for f_, val in ast.iter_fields(n):
+                                if isinstance(val, ast.Name) and val.id == X:
+                                    setattr(n, f_, copy.deepcopy(v))
+                                elif isinstance(val, list):
+                                    for k_, e_ in enumerate(val):
+                                        if isinstance(e_, ast.Name) and e_.id == X:
+                                            val[k_] = copy.deepcopy(v)
+                        return t2
+                    def tidy(t_):
+                        # `not (a == b)` is written `a != b` (the spelling negate() gives), so that both routes to this form agree
+                        if isinstance(t_, ast.UnaryOp) and isinstance(t_.op, ast.Not) and isinstance(t_.operand, ast.Compare) and len(t_.operand.ops) == 1 \
+                                and type(t_.operand.ops[0]) in NEGOP:
+                            return negate(t_.operand)
+                        return t_
+                    ia = loc(ast.If(test=tidy(with_value(a_.value)), body=nxt.body, orelse=[]), nxt)
+                    ib = loc(ast.If(test=tidy(with_value(b_.value)), body=copy.deepcopy(nxt.body), orelse=[]), nxt)
+                    block[i:i + 2] = [loc(ast.If(test=st.test, body=[ia], orelse=[ib]), st)]
+                    counts["branch-temp-in-test->nested-ifs"] = counts.get("branch-temp-in-test->nested-ifs", 0) + 1
+                    continue
+        # if (A if C else B): S     ->   if C: (if A: S) else: (if B: S)        (also under `not`; S short, no else branch)
+        if isinstance(st, ast.If) and not st.orelse and len(st.body) <= 3:
+            t_, neg_ = st.test, False
+            while isinstance(t_, ast.UnaryOp) and isinstance(t_.op, ast.Not):
+                t_, neg_ = t_.operand, not neg_
+            if isinstance(t_, ast.IfExp):
+                def arm(e):
+                    return negate(e) if neg_ else e
+                inner_a = loc(ast.If(test=arm(t_.body), body=st.body, orelse=[]), st)
+                inner_b = loc(ast.If(test=arm(t_.orelse), body=copy.deepcopy(st.body), orelse=[]), st)
+                block[i] = loc(ast.If(test=t_.test, body=[inner_a], orelse=[inner_b]), st)
+                counts["conditional-test->nested-ifs"] = counts.get("conditional-test->nested-ifs", 0) + 1
+                continue
         # if c: X.append(A) else: X.append(B)   ->   X.append(A if c else B)      (the single-item form keeps its conditional value: see below)
         if isinstance(st, ast.If) and len(st.body) == 1 and len(st.orelse) == 1:
             a_, b_ = st.body[0], st.orelse[0]
@@ -2030,12 +2125,116 @@ def top_functions(tree, modname):
     yield from rec(tree.body, modname)
 
 
+def _generators_as_list_builders(tree, stats):
+    """A generator whose every call is consumed on the spot (`list(g(..))`, `for x in g(..)`, `.extend(g(..))`, dict / sorted / set / tuple /
+    any / all / sum of it) and that uses `yield` only as a statement is the function that appends to a list and returns it: `yield E` is
+    `_out.append(E)`, `yield from X` is `_out.extend(X)`, and `list(g(..))` is `g(..)`.  (Laziness is unobservable when the consumer drains
+    the generator before anything else runs.)"""
+    gens = {}
+    for f in ast.walk(tree):
+        if not isinstance(f, ast.FunctionDef):
+            continue
+        own = [n for n in _walk_same_scope_fn(f)]
+        ys = [n for n in own if isinstance(n, (ast.Yield, ast.YieldFrom))]
+        if not ys:
+            continue
+        stmt_ys = [n for n in own if isinstance(n, ast.Expr) and isinstance(n.value, (ast.Yield, ast.YieldFrom))]
+        if len(stmt_ys) != len(ys) or any(isinstance(n, ast.Return) and n.value is not None for n in own) or f.decorator_list and any(
+                not (isinstance(d, ast.Name) and d.id in ("staticmethod", "classmethod")) for d in f.decorator_list):
+            continue
+        gens.setdefault(f.name, []).append(f)
+    if not gens:
+        return
+    CONSUMERS = {"list", "tuple", "dict", "sorted", "set", "frozenset", "any", "all", "sum", "max", "min"}
+    parents = {}
+    for n in ast.walk(tree):
+        for c in ast.iter_child_nodes(n):
+            parents[c] = n
+    for name, fs in gens.items():
+        if len(fs) != 1:
+            continue
+        f = fs[0]
+        refs = [n for n in ast.walk(tree) if (isinstance(n, ast.Name) and n.id == name and isinstance(n.ctx, ast.Load)) or (isinstance(n, ast.Attribute) and n.attr == name and isinstance(n.ctx, ast.Load))]
+        calls = []
+        ok = bool(refs)
+        for r in refs:
+            c = parents.get(r)
+            if not (isinstance(c, ast.Call) and c.func is r):
+                ok = False
+                break
+            up = parents.get(c)
+            consumed = (isinstance(up, ast.Call) and c in up.args and ((isinstance(up.func, ast.Name) and up.func.id in CONSUMERS and len(up.args) == 1)
+                                                                        or (isinstance(up.func, ast.Attribute) and up.func.attr in ("extend", "update", "join")))) \
+                or (isinstance(up, (ast.For, ast.comprehension)) and up.iter is c) or (isinstance(up, ast.Starred))
+            if not consumed:
+                ok = False
+                break
+            calls.append((c, up))
+        if not ok:
+            continue
+        # a straight list of `yield key, value` statements consumed only by dict(..): the dict display itself
+        body_ = _strip_doc(f.body)
+        if body_ and all(isinstance(b, ast.Expr) and isinstance(b.value, ast.Yield) and isinstance(b.value.value, ast.Tuple) and len(b.value.value.elts) == 2 for b in body_) \
+                and all(isinstance(up, ast.Call) and isinstance(up.func, ast.Name) and up.func.id == "dict" for c, up in calls):
+            disp = ast.Dict(keys=[b.value.value.elts[0] for b in body_], values=[b.value.value.elts[1] for b in body_])
+            f.body = f.body[:len(f.body) - len(body_)] + [loc(ast.Return(value=disp), body_[0])]
+            for c, up in calls:
+                gp = parents.get(up)
+                if gp is not None:
+                    _replace_node(gp, up, c)
+            ast.fix_missing_locations(tree)
+            stats["generator-of-pairs->dict"] = stats.get("generator-of-pairs->dict", 0) + 1
+            continue
+        out = "_out"
+        if any(isinstance(n, ast.Name) and n.id == out for n in ast.walk(f)):
+            continue
+
+        class Y(ast.NodeTransformer):
+            def visit_FunctionDef(self, n):
+                return n if n is not f else self.generic_visit(n)
+            visit_AsyncFunctionDef = visit_Lambda = lambda self, n: n
+
+            def visit_Expr(self, n):
+                v = n.value
+                if isinstance(v, ast.Yield):
+                    val = v.value if v.value is not None else ast.Constant(value=None)
+                    return loc(ast.Expr(value=ast.Call(func=ast.Attribute(value=ast.Name(id=out, ctx=ast.Load()), attr="append", ctx=ast.Load()), args=[val], keywords=[])), n)
+                if isinstance(v, ast.YieldFrom):
+                    return loc(ast.Expr(value=ast.Call(func=ast.Attribute(value=ast.Name(id=out, ctx=ast.Load()), attr="extend", ctx=ast.Load()), args=[v.value], keywords=[])), n)
+                return n
+
+            def visit_Return(self, n):
+                return loc(ast.Return(value=ast.Name(id=out, ctx=ast.Load())), n)
+        Y().visit(f)
+        doc = 1 if f.body and isinstance(f.body[0], ast.Expr) and isinstance(f.body[0].value, ast.Constant) and isinstance(f.body[0].value.value, str) else 0
+        f.body.insert(doc, loc(ast.Assign(targets=[ast.Name(id=out, ctx=ast.Store())], value=ast.List(elts=[], ctx=ast.Load())), f))
+        f.body.append(loc(ast.Return(value=ast.Name(id=out, ctx=ast.Load())), f))
+        for c, up in calls:
+            if isinstance(up, ast.Call) and isinstance(up.func, ast.Name) and up.func.id == "list":
+                gp = parents.get(up)
+                if gp is not None:
+                    _replace_node(gp, up, c)
+        ast.fix_missing_locations(tree)
+        stats["generator->list-builder"] = stats.get("generator->list-builder", 0) + 1
+
+
+def _walk_same_scope_fn(f):
+    todo = list(f.body)
+    while todo:
+        n = todo.pop()
+        yield n
+        for c in ast.iter_child_nodes(n):
+            if not isinstance(c, (ast.FunctionDef, ast.AsyncFunctionDef, ast.Lambda, ast.ClassDef)):
+                todo.append(c)
+
+
 def normalise(tree, modname, keyword_names=frozenset(), ref=None, stats=None):
     ref = reference() if ref is None else ref
     stats = stats if stats is not None else {}
     mark_real(tree)
     known = set(ref.get("inventory", {}).get(modname, []))
     if known:
+        _generators_as_list_builders(tree, stats)
         library_spellings(tree, stats)
         propagate_new_constants(tree, modname, set(ref.get("module_names", {}).get(modname, [])), stats)
         attr_access_by_name(tree, stats)
@@ -2056,6 +2255,22 @@ def normalise(tree, modname, keyword_names=frozenset(), ref=None, stats=None):
         _nested_defs_as_lambdas(fn, set(ref.get("nested", {}).get(q, [])) if known else None or set(), stats) if known else None
         _single_use_temps(fn, stats)
         _unroll_literal_comprehensions(fn, stats)
+        for holder, fld, block in reversed(list(blocks_of(fn))):     # idioms that only appear once temporaries are gone
+            canon_block(block, fn, stats)
+    if known:
+        # helpers that only became directly visible after tables were unrolled / aliases expanded
+        attr_access_by_name(tree, stats)
+        inl2 = Inliner(tree, modname, known)
+        inl2.run()
+        if inl2.count:
+            stats["helpers-inlined"] = stats.get("helpers-inlined", 0) + inl2.count
+            stats.setdefault("inlined", []).extend(f"{modname}.{h}->{c}" for h, c in inl2.inlined)
+            if inl2.removed:
+                stats.setdefault("helpers-folded-away", []).extend(f"{modname}.{h}" for h in inl2.removed)
+            for q, fn in top_functions(tree, modname):
+                for holder, fld, block in reversed(list(blocks_of(fn))):
+                    canon_block(block, fn, stats)
+                _single_use_temps(fn, stats)
     roles = ref.get("roles", {})
     for q, fn in top_functions(tree, modname):
         if q in roles:
